@@ -22,6 +22,13 @@ Definition x_sign_raw (zfix sfix nfix pfix : bool) (cfg : amcfg) (warmup pending
            Toy.pk Toy.sighash Toy.redeem Toy.pub_at warmup env pfix pending_height
            (engine_template Toy.pk Toy.verify Toy.sighash Toy.sha256 Toy.pk_of_redeem) st p flagstr t.
 
+(* the witness a successful signature of input i of t under flag byte fb by address a leaves *)
+Definition x_witness (a : addr) (fb : Z) (t : tx) (i : nat) (v : Z) : list bytes :=
+  match flag_of_byte fb with
+  | Some f => [Toy.sign (Toy.sk_of a) (Toy.sighash f t i v (Toy.redeem (Toy.pub_at a))) ++ [fb]; Toy.redeem (Toy.pub_at a)]
+  | None => [[0]; [0]]
+  end.
+
 (* the property's predicate on the model's own result *)
 Definition x_verified (pfix : bool) (warmup pending_height : Z) (env : outpoint -> look) (t : tx) : bool :=
   forallb (fun i =>
